@@ -19,9 +19,20 @@ mod verif_kani_token {
     fn any_rank() -> u8 { let c: u8 = kani::any(); kani::assume(c < 13); c }
     fn any_suit() -> u8 { let c: u8 = kani::any(); kani::assume(c < 4); c }
 
-    /// deterministic abstraction of parse_probability on the weight grammar `[01](\.[0-9]+)?`:
-    /// preserves the comparison with 1.0 and membership in [0, 1]; anything else behaves like
-    /// `f32::from_str(..).unwrap_or(1.0)` failing, i.e. 1.0 (such texts never pass a token regex)
+    /// Abstraction of parse_probability on the weight grammar `[01](\.[0-9]+)?`: an OVER-approximation of a
+    /// correctly rounded `f32::from_str` that is deterministic per class of text within one harness run
+    /// (the parser reads the weight twice: once for the `> 1.0` test, once for the value it stores):
+    ///   "0" / "0.000"                      -> exactly 0.0
+    ///   "0.<some nonzero digit>"           -> ANY f32 in [0, 1]              (symbolic, fixed per run)
+    ///   "1" / "1.000"                      -> exactly 1.0
+    ///   "1.<nonzero within 7 digits>"      -> ANY f32 in [1 + EPSILON, 2)    (value >= 1.0000001 rounds up)
+    ///   "1.<nonzero only after 7 digits>"  -> 1.0 or 1 + EPSILON             (value < 1.0000001)
+    /// anything else behaves like `f32::from_str(..).unwrap_or(1.0)` failing, i.e. 1.0 (such texts never pass
+    /// a token regex).
+    static mut MEMO_LOW: (bool, f32) = (false, 0.0);
+    static mut MEMO_HIGH: (bool, f32) = (false, 0.0);
+    static mut MEMO_EDGE: (bool, f32) = (false, 0.0);
+
     pub fn stub_parse_probability(value: &str) -> f32 {
         let b = value.as_bytes();
         let mut i = 0;
@@ -31,17 +42,33 @@ mod verif_kani_token {
         if d0 != b'0' && d0 != b'1' { return 1.0; }
         i += 1;
         let mut frac_nonzero = false;
+        let mut early_nonzero = false;
         if i < b.len() {
             if b[i] != b'.' { return 1.0; }
             i += 1;
             if i >= b.len() { return 1.0; }
+            let start = i;
             while i < b.len() {
                 if b[i] < b'0' || b[i] > b'9' { return 1.0; }
-                if b[i] != b'0' { frac_nonzero = true; }
+                if b[i] != b'0' { frac_nonzero = true; if i - start < 7 { early_nonzero = true; } }
                 i += 1;
             }
         }
-        if d0 == b'0' { if frac_nonzero { 0.5 } else { 0.0 } } else if frac_nonzero { 1.5 } else { 1.0 }
+        unsafe {
+            if d0 == b'0' {
+                if !frac_nonzero { return 0.0; }
+                if !MEMO_LOW.0 { let v: f32 = kani::any(); kani::assume(v >= 0.0 && v <= 1.0); MEMO_LOW.0 = true; MEMO_LOW.1 = v; }
+                MEMO_LOW.1
+            } else if !frac_nonzero {
+                1.0
+            } else if early_nonzero {
+                if !MEMO_HIGH.0 { let v: f32 = kani::any(); kani::assume(v >= 1.0 + f32::EPSILON && v < 2.0); MEMO_HIGH.0 = true; MEMO_HIGH.1 = v; }
+                MEMO_HIGH.1
+            } else {
+                if !MEMO_EDGE.0 { let up: bool = kani::any(); MEMO_EDGE.0 = true; MEMO_EDGE.1 = if up { 1.0 + f32::EPSILON } else { 1.0 }; }
+                MEMO_EDGE.1
+            }
+        }
     }
 
     /// the data-structure invariant a parsed token must satisfy (DESIGN.md C09/C10); mirrors token_wf of the Verus unit
